@@ -32,6 +32,7 @@ impl Template {
     #[verifier::external_body]
     pub fn render_to(&self, writer: &mut Sink, runtime: &dyn Runtime) -> (r: Result<()>)
         requires !old(writer).failed@,                                                      // [C10:no_write_after_failure]
+                 runtime.writable(),
         ensures renders_as_child(self.rid(), runtime.ident(), *old(writer), *final(writer), r)
     { unimplemented!() }
 }
@@ -173,6 +174,8 @@ pub uninterp spec fn scope_ident(parent: RtId, m: Map<Seq<char>, VId>) -> RtId;
 pub struct ScopeFrame<'a> { pub parent: &'a dyn Runtime, pub data: &'a RootMap, pub regs: Registers }
 impl<'a> Runtime for ScopeFrame<'a> {
     open spec fn ident(&self) -> RtId { scope_ident(self.parent.ident(), self.data.m@) }
+    /// a plain scope forwards writes to its parent (unit `stack`: StackFrame::set_global / set_index)
+    open spec fn writable(&self) -> bool { self.parent.writable() }
     #[verifier::external_body]
     fn registers(&self) -> (r: &Registers) { unimplemented!() }
 }
@@ -216,6 +219,9 @@ impl GlobalFrame {
 }
 impl<'a> Runtime for IsolatedFrame<'a> {
     open spec fn ident(&self) -> RtId { isolated_ident(self.inner.data.m@) }
+    /// render's scope: its own global layer over a sandbox that forwards counter writes to the caller's runtime
+    /// (unit `stack`: GlobalFrame::set_global is its own cell, SandboxedStackFrame::set_index forwards)
+    open spec fn writable(&self) -> bool { self.inner.parent.writable() }
     #[verifier::external_body]
     fn registers(&self) -> (r: &Registers) { unimplemented!() }
 }
@@ -382,6 +388,7 @@ impl For {
 //@ sig fn render_to(&self, writer: &mut Sink, runtime: &dyn Runtime) -> (r: Result<()>)
 //@ spec
     requires !old(writer).failed@,
+        runtime.writable(),                                                            // [C02:scope_has_assignment_and_counter_layers]
     ensures
         sink_safe(*old(writer), *final(writer), r),                                                   // [C10:for_failed_sink_is_error]
         r is Ok ==> self.sel(runtime) is Some,
@@ -408,7 +415,7 @@ impl For {
     invariant_except_break
         writer.log@ == old(writer).log@ + self.iterations(runtime.ident(), sel_ghost@, it.index@),    // [C05:each_iteration_binds_the_next_selected_element_and_a_truthful_forloop]
     invariant
-        !writer.failed@,
+        !writer.failed@, runtime.writable(),
         0 <= it.index@ <= range_len,
         range_len == sel_ghost@.len(), 0 < range_len <= isize::MAX as usize,
         self.sel(runtime) == Some(sel_ghost@),
@@ -529,6 +536,7 @@ impl TableRow {
 //@ sig fn render_to(&self, writer: &mut Sink, runtime: &dyn Runtime) -> (r: Result<()>)
 //@ spec
     requires !old(writer).failed@,
+        runtime.writable(),                                                            // [C02:scope_has_assignment_and_counter_layers]
     ensures
         sink_safe(*old(writer), *final(writer), r),                                                   // [C10:tablerow_failed_sink_is_error]
         // every selected element, in order, once: row/cell markup, the body in a scope with the element and a truthful tablerow
@@ -546,7 +554,7 @@ impl TableRow {
 || -> (k: KString) requires i < isize::MAX as usize
 //@ loop 0 kind=for
     invariant
-        !writer.failed@,
+        !writer.failed@, runtime.writable(),
         0 <= it.index@ <= range_len,
         range_len == sel_ghost@.len(), range_len <= isize::MAX as usize,
         self.sel(runtime) == Some(sel_ghost@),
@@ -593,6 +601,7 @@ impl Include {
 //@ sig fn render_to(&self, writer: &mut Sink, runtime: &dyn Runtime) -> (r: Result<()>)
 //@ spec
     requires !old(writer).failed@,
+        runtime.writable(),                                                            // [C02:scope_has_assignment_and_counter_layers]
     ensures
         sink_safe(*old(writer), *final(writer), r),                                                   // [C10:include_failed_sink_is_error]
         // include renders the named partial once, in a plain scope (its arguments) layered over the CALLER's runtime
@@ -607,7 +616,7 @@ impl Include {
 //@ loop 0 kind=for
     invariant
         0 <= it.index@ <= self.vars@.len(),
-        !writer.failed@, writer.log@ == old(writer).log@,
+        !writer.failed@, runtime.writable(), writer.log@ == old(writer).log@,
         args_map(self.vars@, runtime, it.index@, Map::empty()) == Some(pass_through.m@),
 //@ closure 0 arg_of=ok_or_else params=
 || -> (e: Error)
@@ -653,6 +662,7 @@ impl Render {
 //@ sig fn render_to(&self, writer: &mut Sink, runtime: &dyn Runtime) -> (r: Result<()>)
 //@ spec
     requires !old(writer).failed@,
+        runtime.writable(),                                                            // [C02:scope_has_assignment_and_counter_layers]
     ensures
         sink_safe(*old(writer), *final(writer), r),                                                   // [C10:render_failed_sink_is_error]
         // plain render: the partial once, in a scope whose identity depends on the explicit arguments ONLY (never on the caller's scope)
@@ -674,7 +684,7 @@ impl Render {
     invariant_except_break
         writer.log@ == old(writer).log@ + trace, trace.len() == it.index@,
     invariant
-        !writer.failed@, 0 <= it.index@ <= len, len == sel@.len(), 0 < len <= isize::MAX as usize,
+        !writer.failed@, runtime.writable(), 0 <= it.index@ <= len, len == sel@.len(), 0 < len <= isize::MAX as usize,
         self.for_ is Some, self.for_.unwrap().1 == *var_name,
         self.for_.unwrap().0.denotes(runtime) == Some(sel@),
         self.partial.denotes(runtime) == Some(value.vid()), name.view() == vid_text(value.vid()),
@@ -689,12 +699,12 @@ impl Render {
 //@ loop 1 kind=for
     invariant
         0 <= it2.index@ <= self.vars@.len(),
-        !writer.failed@, writer.log@ == old(writer).log@ + trace,
+        !writer.failed@, runtime.writable(), writer.log@ == old(writer).log@ + trace,
         args_map(self.vars@, runtime, it2.index@, Map::empty()) == Some(root.m@),
 //@ loop 2 kind=for
     invariant
         0 <= it2.index@ <= self.vars@.len(),
-        !writer.failed@, writer.log@ == old(writer).log@,
+        !writer.failed@, runtime.writable(), writer.log@ == old(writer).log@,
         args_map(self.vars@, runtime, it2.index@, Map::empty()) == Some(root.m@),
 //@ ghost after <<.value_with(|| format!("{}", i + 1).into())?;>>
     proof {
